@@ -863,6 +863,19 @@ def reach_consistent(fv, starts, cut_nodes=(), cut_edges=(), facts0=()):
     for l, n in name_of.items():
         for d in fv.defs.get(l, []):
             defs_in.setdefault(d[0], set()).add(n)
+    # constant assignments (`flag = true`) establish the value instead of forgetting it
+    const_in = {}
+    for bi_ in range(fv.n):
+        if b.cleanup[bi_]:
+            continue
+        for st in b.stmts(bi_):
+            if st.kind == "a" and st.place.is_local() and st.place.local in name_of:
+                n_ = name_of[st.place.local]
+                val = None
+                if st.rv.op == "use" and st.rv.ops and st.rv.ops[0].const is not None:
+                    sv = str(st.rv.ops[0].const.get("s", st.rv.ops[0].const.get("v")))
+                    val = True if sv in ("true", "1") else (False if sv in ("false", "0") else None)
+                const_in.setdefault(bi_, {})[n_] = val
     edge_atom = {}
     for sb in range(fv.n):
         if b.cleanup[sb] or b.term(sb).kind != "switch":
@@ -882,6 +895,11 @@ def reach_consistent(fv, starts, cut_nodes=(), cut_edges=(), facts0=()):
         f = dict(facts)
         for n in defs_in.get(blk, ()):
             f.pop(n, None)
+        for n, val in const_in.get(blk, {}).items():
+            if val is None:
+                f.pop(n, None)
+            else:
+                f[n] = val
         for v in fv.succ[blk]:
             if v in cut_nodes or (blk, v) in cut_edges:
                 continue
